@@ -5,3 +5,6 @@ package qnet
 
 // verifSched is a schedule point of the verification harness; without the build tag `verif` it does nothing.
 func verifSched(point string, conn *TcpConn) {}
+
+// verifSchedServer is a schedule point of the verification harness; without the build tag `verif` it does nothing.
+func verifSchedServer(point string, srv *TcpServer) {}
